@@ -92,15 +92,14 @@ def altWords (g : Gram) (r : Rule) : List Word :=
   (if r.prec == 0 then [] else [kPrec, name g r.prec])
 
 /-- `Parser.RulesByNonterm`: rules grouped by left-hand side, groups in order of first occurrence,
-rules of a group in their original order. -/
-def groups : List Rule → List (Nat × List Rule)
-  | [] => []
-  | r :: rs =>
-    (r.lhs, r :: rs.filter (fun x => x.lhs == r.lhs)) :: groups (rs.filter (fun x => !(x.lhs == r.lhs)))
-termination_by l => l.length
-decreasing_by
-  simp only [List.length_cons, List.length_unattach]
-  exact Nat.lt_succ_of_le (Nat.le_trans (List.length_filter_le _ _) (by simp))
+rules of a group in their original order (fuel = number of rules, one group per step). -/
+def groupsF : Nat → List Rule → List (Nat × List Rule)
+  | 0, _ => []
+  | _, [] => []
+  | n + 1, r :: rs =>
+    (r.lhs, r :: rs.filter (fun x => x.lhs == r.lhs)) :: groupsF n (rs.filter (fun x => !(x.lhs == r.lhs)))
+
+def groups (rules : List Rule) : List (Nat × List Rule) := groupsF rules.length rules
 
 /-- first alternative indented by two blanks, the others introduced by `| ` -/
 def altLines (g : Gram) : List Rule → List (List Word)
